@@ -16,11 +16,17 @@ C7 == [name |-> "B_s2", topic |-> "B_t1", cfg |-> Cfg0]
 C2 == [name |-> "s1", topic |-> "t2", cfg |-> [Cfg0 EXCEPT !.filt = F_has_a, !.ord = TRUE, !.ttl = 0, !.mttl = 0, !.minB = 0, !.maxB = 0]]
 C3 == [name |-> "s2", topic |-> "t1", cfg |-> [Cfg0 EXCEPT !.dlt = "t2", !.maxAtt = 0, !.labels = [x |-> "y"]]]
 C4 == [name |-> "s2", topic |-> "t2", cfg |-> [Cfg0 EXCEPT !.dlt = "t1", !.maxAtt = 3, !.minB = 5, !.maxB = 0]]
-mcTopicNames == {"t1", "t2", "A_t1", "B_t1", "D_t2"}
-mcSubNames == {"s1", "s2", "A_s1", "C_s1", "B_s2"}
-mcSnapNames == {"n1", "n2", "A_n1"}
-mcSubCfgs == {C1, C2, C3, C4, C5, C6, C7}
-mcSetup == << [op |-> "CreateTopic", name |-> "t1"] >>
+C8 == [name |-> "s3", topic |-> "t1", cfg |-> Cfg0]
+C9 == [name |-> "s4", topic |-> "t2", cfg |-> Cfg0]
+mcTopicNames == {"t1", "t2", "t3", "A_t1", "B_t1", "D_t2"}
+mcSubNames == {"s1", "s2", "s3", "s4", "A_s1", "C_s1", "B_s2"}
+mcSnapNames == {"n1", "n2", "n3", "A_n1"}
+mcSubCfgs == {C1, C2, C3, C4, C5, C6, C7, C8, C9}
+\* several live resources per project from the start, so that listings span pages
+mcSetup == << [op |-> "CreateTopic", name |-> "t1"], [op |-> "CreateTopic", name |-> "t2"],
+              [op |-> "CreateTopic", name |-> "t3"], [op |-> "CreateTopic", name |-> "A_t1"],
+              [op |-> "CreateSub", c |-> C1], [op |-> "CreateSub", c |-> C3], [op |-> "CreateSub", c |-> C8],
+              [op |-> "CreateSub", c |-> C5] >>
 mcMsgKinds == { [key |-> "", attrs |-> <<>>], [key |-> "K", attrs |-> [a |-> "x"]] }
 mcPrefixPairs == {<<"x", "">>, <<"x", "x">>}
 mcTickDs == {1, 5}
@@ -29,6 +35,6 @@ mcProjOfName == [n \in {"A_t1", "A_s1", "A_n1"} |-> "A"] @@ [n \in {"B_t1", "B_s
 mcOps == {"CreateTopic", "DeleteTopic", "CreateSub", "DeleteSub", "Publish", "Pull", "Ack", "CreateSnap",
           "DeleteSnap", "SeekSnap", "Get", "List", "Tick", "PruneDeletedSubscriptions", "PruneDeletedTopics"}
 W0 == [op \in mcOps |-> 3]
-mcWeights == [W0 EXCEPT !["CreateTopic"] = 6, !["CreateSub"] = 8, !["Get"] = 8, !["List"] = 6, !["Publish"] = 5,
+mcWeights == [W0 EXCEPT !["CreateTopic"] = 4, !["CreateSub"] = 8, !["Get"] = 6, !["List"] = 10, !["CreateSnap"] = 5, !["Publish"] = 5,
                         !["Pull"] = 5, !["Tick"] = 2, !["PruneDeletedTopics"] = 1, !["PruneDeletedSubscriptions"] = 1]
 =============================================================================
